@@ -288,6 +288,10 @@ def shape_to_tree(shape, leaf_iter):
     return {"t": kind, "c": [shape_to_tree(c, leaf_iter) for c in children]}
 
 
+P_SAME_KIND = 0.12  # probability that a nested connection has the SAME kind as its parent (only reachable through the
+#                      object route and through redundant brackets in text; the parser merges such nesting)
+
+
 def random_shape(rng, n_leaves, kind=None, max_depth=6, depth=0):
     if n_leaves == 1:
         return "L"
@@ -298,7 +302,7 @@ def random_shape(rng, n_leaves, kind=None, max_depth=6, depth=0):
     k = int(rng.integers(2, min(n_leaves, 5) + 1))
     cuts = sorted(rng.choice(np.arange(1, n_leaves), size=k - 1, replace=False).tolist())
     parts = [b - a for a, b in zip([0] + cuts, cuts + [n_leaves])]
-    return (kind, [random_shape(rng, p, other, max_depth, depth + 1) for p in parts])
+    return (kind, [random_shape(rng, p, (kind if (p > 1 and rng.random() < P_SAME_KIND) else other), max_depth, depth + 1) for p in parts])
 
 
 ALL_SYMS = None
